@@ -18,7 +18,7 @@ from ..prog import DIALECT_CLASSES, registry
 
 PROP = "C13"
 LEVEL = "exploration"
-RULE = ("all subsets of the clause-setting calls per statement kind (SELECT 2^13, UPDATE 2^6, DELETE 2^4, INSERT 2^7, CREATE 2^8, "
+RULE = ("all subsets of the clause-setting calls per statement kind (set operation 2^4, SELECT 2^13, UPDATE 2^6, DELETE 2^4, INSERT 2^7, CREATE 2^8, "
         "DROP 2^1) x six dialect classes, rendered in canonical order; permutation groups: every subset of size 2..5 of "
         "the commuting calls in all k! orders (sampled orders for larger groups on the thorough tier); seeded groups of 2..5 calls "
         "in which every call takes one of its alternative argument forms (names given as strings, strings that equal a select "
